@@ -28,5 +28,5 @@ def run(check):
     check.run_rule('C09.R3', lambda c: rm.rule_tables(
         c, M.merge(), 'C09.R3', ('leftwins',), 'name and kind come from the left operand',
         witness="merge(s('a, /'), s('b, /')) must be (a, /)"))
-    check.run_rule('C09.R3b', lambda c: rm.concile_table(c, c.repo, {'leftwins': 'C09.R3'}))
+    check.run_rule('C09.R3b', lambda c: rm.concile_table(c, c.repo, {'leftwins': 'C09.R3', 'exact': 'C09.R1'}))
     check.run_rule('C09.R4', lambda c: rm.rule_kind_closure(c, M.merge(), 'C09.R4'))
